@@ -95,7 +95,8 @@ ZNested == <<TSeq(<<Comp(InnerExt, "man", <<>>), Comp(I07, "man", <<>>)>>, 2, FA
 
 \* types that additionally get the large lengths of BigLens (every fragment-count class of 11.9.3.8)
 ZBig == <<TOct(NoSz), TStr("utf8", NoSz), TOct(Sz(0, 65535, FALSE)), TOct(Sz(1, 2, TRUE)),
-          TSeqOf(TBool, NoSz), TStr("ia5", NoSz), TStr("num", NoSz), TBits(NoSz), TSeqOf(I07, Sz(1, 2, TRUE))>>
+          TSeqOf(TBool, NoSz), TStr("ia5", NoSz), TStr("num", NoSz), TBits(NoSz), TSeqOf(I07, Sz(1, 2, TRUE)),
+          TBits(Sz(1, 70000, FALSE))>>   \* an upper bound above 64K: a longer value (fragmented path) must still be refused
 BigLens == <<16383, 16384, 16385, 32768, 49153, 65535, 65536, 65537, 81920>>
 
 \* alignment: a BIT STRING / OCTET STRING longer than two octets behind k = 1..7 bits, followed by another component
